@@ -52,7 +52,8 @@ VOCAB = ['Files: *', 'Copyright: 2001 Foo', 'License: GPL-2+', 'License:', 'Lice
          '# package was debianized by', '#', '#x: y', ' # indented hash', 'Upstream-Contact: John Doe <john@example.org>, Jane Roe <jane@example.org>', 'Upstream-Contact: "Doe, John" <jd@x.org> (remark)',
          ' Jane <jane@x.org> ,', 'Upstream-Contact: unclosed <a@b', 'Unknown-a:x', 'Unknown-b:y z', 'unknown:w', 'Comment:nospace',
          'Licen\u017fe: MIT', '\u017fource: x', 'X-\u212a-\u0131: v', ' #!/bin/sh', ' # configure first', '\t#tab hash', 'Description: #hash first',
-         'Copyright: \u00b2 Foo Inc.', ' \u2460 Baz', 'Copyright: 2\u2070\u00b9\u2079 Foo', 'Copyright: \u0662\u0660\u0662\u0660 Foo', 'Copyright: 0 Foo', ' 999 Bar', 'Copyright: \u00bd Foo']
+         'Copyright: \u00b2 Foo Inc.', ' \u2460 Baz', 'Copyright: 2\u2070\u00b9\u2079 Foo', 'Copyright: \u0662\u0660\u0662\u0660 Foo', 'Copyright: 0 Foo', ' 999 Bar', 'Copyright: \u00bd Foo',
+         'Files: win32\\', 'Files: a\\*b c\\', ' trailing\\', 'Files: data/table,v doc/notes,final.txt', 'Files: *\\?']
 
 
 def random_text(rng, max_lines=12):
